@@ -98,6 +98,37 @@ def run(prog: Program) -> Results:
     for fnd in sub10.findings:
         if fnd.rule == "R-C10-5":
             res.add("R-C05-4", fnd.key, fnd.where, fnd.message)
+    # ---------------------------------------------------------------- R-C05-7 parenthesis transparency is uniform
+    from sa.cfg import CFG, ReachingDefs
+    r7 = res.rule("R-C05-7", "formatting parentheses are transparent on every path: where a class test in the CLI target resolution "
+                  "sees a value that was stripped of parentheses on one incoming path, it was stripped on all of them "
+                  "(a curried call `(g f) a { ... }` is walked to its head through every level)", floor=4)
+    for f in prog.all_functions():
+        if f.module != "nix_manipulator/cli/manipulations.py":
+            continue
+        tests = [c for c in walk_no_nested(f.node) if isinstance(c, ast.Call) and isinstance(c.func, ast.Name) and c.func.id == "isinstance"
+                 and len(c.args) == 2 and isinstance(c.args[0], ast.Name) and "Parenthesis" not in norm(c.args[1]) and norm(c.args[1]) != "str"]
+        if not tests:
+            continue
+        cfg = CFG(f.node)
+        rd = ReachingDefs(cfg)
+        for c in tests:
+            defs = rd.defs_for_use(c, c.args[0].id)
+
+            def stripped(d):
+                return isinstance(d, ast.Assign) and isinstance(d.value, ast.Call) and isinstance(d.value.func, ast.Name) \
+                    and d.value.func.id == "_strip_parentheses"
+            yes = [d for d in defs if stripped(d)]
+            no = [d for d in defs if not stripped(d)]
+            if not yes:
+                continue
+            r7.instances += 1
+            r7.ob(not no, {"site": f.key, "test": norm(c)[:60], "definitions": [norm(d)[:50] if not isinstance(d, str) else d for d in defs]})
+            for d in no:
+                res.add("R-C05-7", (f.key, "class test reached without stripping parentheses", norm(c.args[1])[:50]), f.loc(c),
+                        f"{f.key}: `{norm(c)[:70]}` is reached both with a value stripped of parentheses and with "
+                        f"`{norm(d)[:60] if not isinstance(d, str) else 'the raw parameter'}`, which is not: a parenthesised expression in that "
+                        f"position makes the test fail and the edit is refused because of the wrapper")
     from sa.rules import merge
     merge.check(prog, res, "R-C05-5", "R-C05-6")
     res.assumptions = ["the value read back equals VALUE, intermediate-set creation and pruning are runtime effects not decided here"]
